@@ -24,7 +24,7 @@ ENGINES = [
     {"name": "codec", "path": "vf/engines/codec.cc", "serves_properties": ["C15", "C16", "C17"],
      "kind_free_text": "round-trip / differential property testing of log framing, CRC-32C, table files, Snappy, separators, version edits and varints against "
                        "independent reference codecs (vf/ref/ref.h), with exhaustive sub-spaces (separators over short strings, varint32)"},
-    {"name": "hist", "path": "vf/engines/hist.cc", "serves_properties": ["C01", "C06", "C07", "C13", "C14", "C17", "C19", "C20"],
+    {"name": "hist", "path": "vf/engines/hist.cc", "serves_properties": ["C01", "C06", "C07", "C13", "C14", "C15", "C17", "C19", "C20"],
      "kind_free_text": "model-based stateful property testing: rapidcheck-generated operation histories interpreted against lcdb and a "
                        "sorted-map model on a deterministic baton scheduler, with directory operations recorded and every reported table "
                        "decoded by an independent reader"},
@@ -76,11 +76,13 @@ CHECKS = {
                      "point lookups agree with scans; follow-up writes after recovery win, persist across close and a second open; the second open loses nothing; "
                      "tables named by the image's MANIFEST are never rewritten by recovery."),
     "C15": dict(engine="codec", cat="exploration", ref="3/C15",
-                technique="round-trip and differential property testing against an independent log encoder/decoder and a bitwise CRC-32C",
+                technique="round-trip and differential property testing against an independent log encoder/decoder and a bitwise CRC-32C; model-based histories over the real file layer with short reads/writes and EINTR",
                 text="Generated record-length sequences (block/fragment boundary lengths, random up to 200 KiB / 1 MiB), prefix logs for the reuse path, truncation "
                      "sweeps and byte alterations; lcdb's writer bytes must equal the reference encoder's, both readers must return the records, a cut yields exactly "
                      "the records before it silently, alterations yield a subsequence with later intact blocks delivered and losses reported; CRC-32C equals the bitwise "
-                     "reference on both the table-driven and the hardware path. One known finding (zeroed header skipped silently) is excluded by signature."),
+                     "reference on both the table-driven and the hardware path. One known finding (zeroed header skipped silently) is excluded by signature. A second part drives "
+                     "the same framing through the real file layer: write-heavy model-checked histories with frequent reopen (recovery, log reuse at arbitrary offsets) while "
+                     "intercepted read/write calls return short counts and EINTR (legal POSIX outcomes); everything written must read back identically."),
     "C16": dict(engine="codec", cat="exploration", ref="3/C16",
                 technique="round-trip and differential property testing against an independent table reader, Snappy decoder and bloom hash; exhaustive separators on short strings",
                 text="Generated tables under random options are built with the real builder, read with the real reader (iteration both ways, seeks, lookups of present and "
